@@ -19,6 +19,8 @@ CFG = """CONSTANTS
   MaxDup = 0
   MaxResend = 0
   ChanCap = 0
+  MaxInject = 0
+  InjSeqs = {}
   TraceFile = "%(trace)s"
 SPECIFICATION TraceSpec
 INVARIANTS %(invs)s
@@ -142,7 +144,7 @@ def validate(ctx, out_dir, prefix, invs=DEFAULT_INVS, classify=None,
     return stats, runs
 
 
-def crash_report(ctx, output, prefix):
+def crash_report(ctx, output, prefix, extra=None, tag=None):
     """A panic / fatal error / race report of the code under test during a
     driver run is real-code behaviour: report it.  Returns True if one was
     found."""
@@ -154,9 +156,12 @@ def crash_report(ctx, output, prefix):
     frames = re.findall(r"lightning-node-connect/(\w+)\.([\w().*]+)",
                         output[i:i + 6000])
     where = ".".join(frames[0]) if frames else "?"
+    where = re.sub(r"\(0x[0-9a-f]+.*$", "", where).rstrip("(")
     key = "crash:%s:%s" % (re.sub(r"[^A-Za-z ]", "", head)[:40].strip()
                            .replace(" ", "_"), where)
+    if tag:
+        key += ":" + tag
     ctx.report(key, "the code under test crashed during a driver run: %s "
                "(first frame %s)" % (head, where),
-               {"output": output[i:i + 6000]})
+               {"output": output[i:i + 6000], "scenario": extra})
     return True
